@@ -109,8 +109,60 @@ def h_keyed(ct_len, integ_id, inner_type=None, min_pad=0):
     return _wrap(_classify(lambda: m.Message.parse(d, crypto=crypto), MODS))
 
 
+WORK_BODIES = {
+    'DELETE spi_size=0 count=65535': (42, b'\x03\x00\xff\xff'),
+    'DELETE spi_size=1 count=65535': (42, b'\x03\x01\xff\xff' + b'\x07' * 4),
+    'DELETE spi_size=4 count=65535': (42, b'\x03\x04\xff\xff' + b'\x07' * 8),
+    'DELETE spi_size=255 count=65535': (42, b'\x03\xff\xff\xff' + b'\x07' * 8),
+    'NOTIFY spi_size=255': (41, b'\x01\xff\x00\x01' + b'\x07' * 8),
+    'TS count=255': (44, b'\xff\x00\x00\x00' + b'\x07\x00\x00\x10' + b'\x00' * 12),
+    'SA proposal with 255 transforms announced': (33, b'\x00\x00\x00\x10\x01\x01\x00\xff' + b'\x00\x00\x00\x08\x01\x00\x00\x0c'),
+    'SA proposal spi_size=255': (33, b'\x00\x00\x00\x0c\x01\x01\xff\x00' + b'\x00' * 4),
+    'KE': (34, b'\xff\xff\x00\x00' + b'\x07' * 8),
+    'VENDOR': (43, b'\x07' * 12),
+}
+
+
+def h_work():
+    """work bound: count fields taken from the wire at their maximum in tiny datagrams (case split over WORK_BODIES x clear / inside an authentic
+    Encrypted payload): parsing AND the eager structured dump execute a number of Python lines that is linear in the length of the datagram"""
+    import sys
+    from symx import core
+    eng = core.engine()
+    m = MODS['message']
+    names = sorted(WORK_BODIES)
+    c = eng.sym_int('body', 0, len(names) - 1)
+    name = names[eng.concretize(c, 0, len(names) - 1) if not isinstance(c, int) else c]
+    ptype, body = WORK_BODIES[name]
+    payload = bytes([0, 0]) + (4 + len(body)).to_bytes(2, 'big') + body
+    total = 28 + len(payload)
+    data = b'I' * 8 + b'R' * 8 + bytes([ptype, 0x20, 37, 0x08]) + (7).to_bytes(4, 'big') + total.to_bytes(4, 'big') + payload
+    lines = [0]
+    here = m.__file__
+
+    def tracer(frame, event, arg):
+        if frame.f_code.co_filename == here:
+            lines[0] += 1
+        return tracer
+    old = sys.gettrace()
+    sys.settrace(tracer)
+    try:
+        try:
+            msg = m.Message.parse(data)
+            text = repr(msg.to_dict())
+        except m.IkeSaError:
+            text = ''
+    finally:
+        sys.settrace(old)
+    bound = 400 * len(data) + 4000
+    if lines[0] > bound or len(text) > 200 * len(data) + 4000:
+        return {'class': ['work'], 'violation': f'{name}: a datagram of {len(data)} bytes made the parser and the dump execute {lines[0]} lines of message.py and render '
+                                                f'{len(text)} characters (bound: {bound} lines): the work follows a count field of the datagram, not its length'}
+    return ['work', name]
+
+
 def build_instances(tier):
-    inst = []
+    inst = [Instance('work is linear in the datagram length', h_work, (), native=common.native_of(h_work), engine_kw={'max_ticks': 10 ** 7})]
     unit_n = {'quick': (0, 1, 3, 4, 8, 12), 'thorough': (0, 1, 2, 3, 4, 5, 7, 8, 9, 12, 16)}[tier]
     for u in UNITS:
         for n in unit_n:
@@ -144,7 +196,7 @@ def build_instances(tier):
             inst.append(Instance(f'keyed Message.parse ct={ct} integ={integ} inner=any', h_keyed, (ct, integ, None, max(8, ct - 8)),
                                  engine_kw={'max_ticks': 2000, 'max_wall_s': 300}))
     # biggest first
-    inst.sort(key=lambda i: (not i.name.startswith('keyed'), -(i.args[0] if isinstance(i.args[0], int) else i.args[1])))
+    inst.sort(key=lambda i: (not i.name.startswith('keyed'), -((i.args[0] if isinstance(i.args[0], int) else i.args[1]) if i.args else 0)))
     return inst
 
 
